@@ -46,6 +46,17 @@ pub fn test_file(file: &KFile, texts: &[String], all_prefixes: bool) -> TestResu
         ensure_eq!(util::scores_i64(&s), scores, "scores of {t:?} under the converted model");
         contributions += sst.contributions;
     }
+    // the reader takes any BufRead: buffering must not matter (a BufReader hands out short reads
+    // at its buffer edges)
+    for cap in [1usize, 2, 3, 5, 7, 8, 13, 64] {
+        let rdr = std::io::BufReader::with_capacity(cap, &bytes[..]);
+        let km = KyteaModel::read(rdr).map_err(|e| format!("KyteaModel::read through a BufReader of capacity {cap}: {e}"))?;
+        let m = Model::try_from(km).map_err(|e| format!("conversion (BufReader capacity {cap}): {e}"))?;
+        ensure!(
+            m.to_vec().map_err(|e| e.to_string())? == full_bytes,
+            "the converted model depends on the reader's buffering (BufReader capacity {cap})"
+        );
+    }
     // crash points: every proper prefix is rejected with an error, never a panic
     let step = if all_prefixes { 1 } else { 1 + bytes.len() / 500 };
     let mut k = 0;
